@@ -127,6 +127,12 @@ pub fn configs(tier: Tier) -> Vec<Config> {
             }
         }
     }
+    // n-gram sizes up to 2*window (the longest n-gram that fits the window; the grid above stops at 3/4)
+    for (cw, cn, tw, tn) in [(2u8, 4u8, 1u8, 2u8), (3, 6, 2, 4), (1, 2, 3, 6), (2, 5, 2, 5)] {
+        for &sv in &[1u8, 5] {
+            out.push(Config { charw: cw, charn: cn, typew: tw, typen: tn, dict: vec![], bucket: 1, solver: sv });
+        }
+    }
     // a few large windows (variable-length weight vectors, n-grams hanging over the sentence start)
     for (cw, cn, tw, tn) in [(9u8, 2u8, 8u8, 1u8), (8, 1, 12, 2), (12, 3, 9, 3)] {
         for &sv in &[1u8, 5] {
